@@ -315,9 +315,33 @@ def aimed_union_case(rng):
     return {'doc': doc, 'path': rng.choice(['|', ' | ']).join(ops)}
 
 
+def aimed_stacked_position_case(rng):
+    """ONE step with two or more position tests (boolean predicates may sit between) on a descendant /
+    descendant-or-self / child axis below a step that yields NESTED context nodes (an `a` inside an
+    `a`): one node is then tested against several counter packs, and GenericStrategy has to remember
+    per pack which of them already failed an earlier position test of the same step (`missed`, seeded
+    change C05-4).  XPath: each predicate renumbers what the previous ones kept, per context node."""
+    doc = G.rand_doc(rng, rng.choice([7, 9, 12]), deep=True)
+    lead = rng.choice(['//a', '//a', 'descendant::a', 'descendant-or-self::a', '//*', './/a', 'a//a',
+                       'descendant::*', '//b', 'descendant-or-self::*', '*//a', './/*'])
+    x = rng.choice(['a', 'b', 'b', '*', 'text()', 'node()'])
+    ax = rng.choice(['/descendant::', '/descendant::', '/descendant-or-self::', '//', '/'])
+    preds = []
+    for _ in range(rng.choice([2, 2, 3])):
+        preds.append('[%d]' % rng.choice([1, 1, 2, 2, 3]))
+        if rng.random() < 0.3:
+            preds.append(rng.choice(['[true()]', '[@n]', '[not(@zz)]', '[@n or not(@n)]']))
+    text = lead + ax + x + ''.join(preds)
+    if rng.random() < 0.2:
+        text += rng.choice(['/b', '/text()', '/@n', '|a', '|descendant::b[2]'])
+    return {'doc': doc, 'path': text, 'aim': 'stacked-position'}
+
+
 def gen_case(rng, profile=None):
     if profile is None and rng.random() < 0.08:
         return aimed_union_case(rng)
+    if profile is None and rng.random() < 0.06:
+        return aimed_stacked_position_case(rng)
     if profile is None and rng.random() < 0.08:
         # SimplePathStrategy with several fragments (hand-over between fragments, KMP fall-back)
         doc, text = G.rand_fragcase(rng)
@@ -384,6 +408,8 @@ def check_cases(cases, res, stream_prefix=''):
         for z in zones:
             res.count('zone:' + z)
         judged = not (zones & SKIP_ZONES)
+        if case.get('aim'):
+            res.count('aim:%s:%s' % (case['aim'], ('judged-nonempty' if info['expected'] else 'judged-empty') if judged else 'not-judged'))
         if f and judged:
             res.failures.append(f)
         exp = info['expected']
